@@ -153,6 +153,13 @@ class Sched(object):
                 try:
                     it = iter(self.views[vi])
                 except Exception as e:
+                    if self.expect_fault is not None and \
+                            self.expect_fault(None, e):
+                        # an injected fault surfaced from iter() itself
+                        # (e.g. a hash join loads its build side there)
+                        self.log.add('iter-failed', tid, canon_exc(e))
+                        self.probe('iter-failed-by-injection')
+                        return
                     raise Violation(
                         'iter-raised', 'iter() on view %d raised %s: %s'
                         % (vi, type(e).__name__, e), exc=type(e).__name__)
